@@ -3,8 +3,12 @@
 import json, os
 V = os.path.dirname(os.path.dirname(os.path.abspath(__file__)))
 ix = json.load(open(os.path.join(V, "seeded", "index.json")))
-print("| change | what it does (first words of the seeder's summary) | first evaluation | final evaluation (checks at HEAD) |")
-print("|---|---|---|---|")
+try:
+    notes = json.load(open(os.path.join(V, "seeded", "notes.json")))
+except OSError:
+    notes = {}
+print("| change | what it does (first words of the seeder's summary) | first evaluation | final evaluation (checks at HEAD) | note |")
+print("|---|---|---|---|---|")
 def fmt(c):
     return ", ".join("%s %s" % (k, v) for k, v in sorted(c.items()))
 for name in sorted(ix):
@@ -13,4 +17,7 @@ for name in sorted(ix):
     summ = " ".join(e["summary"].split())[:110].replace("|", "/")
     own = e["property"]
     first = h[0]["checks"].get(own, "?")
-    print("| %s | %s | %s %s | %s |" % (name, summ, own, first, fmt(h[-1]["checks"])))
+    latest = {}
+    for ent in h:  # the most recent verdict of every check that was ever run against the change
+        latest.update(ent["checks"])
+    print("| %s | %s | %s %s | %s | %s |" % (name, summ, own, first, fmt(latest), notes.get(name, "")))
